@@ -7,7 +7,7 @@ from comp.rb.check import CASE_NAMES, ROTATING
 
 # rebalancing cases that re-aggregate rotated nodes + the replace_node path: zero hits = coverage rule broken
 REQUIRED = sorted(ROTATING | {3, 4, 30, 31, 32, 40, 41, 42, 43})
-EVENTS = ["max_raised", "max_shrunk", "early_differs", "early_same", "qtyped"]
+EVENTS = ["max_raised", "max_shrunk", "early_differs", "early_same", "qtyped", "qmut"]
 
 RULE = ("seeded op scripts on frg::interval_tree instantiated with P = uint64_t, int64_t and double (the same histories with endpoints "
         "shifted / scaled: negative, mixed-sign, fractional; the N-endpoint model is compared through an order-isomorphic code) over a node pool (i lo hi id / r id / q lb ub / p x, plus w/a/A: upper(node) "
@@ -33,6 +33,9 @@ ASSUMPTIONS = ["insert only nodes not contained, remove only contained nodes (id
                "node identities of contained elements are pairwise distinct",
                "lower <= upper for every inserted interval (otherwise FRG_ASSERT stops the call: modelled, compared)",
                "endpoints are totally (pre)ordered by <=, < is its strict part (integers, doubles without NaN; NaN endpoints are skipped by harness and driver)",
+               "the query bounds are read once, at the call (passed by value): what the callback does to the caller's variables during the traversal "
+               "does not change the answer; the harness runs callbacks that coalesce into / advance / trash the variables passed as bounds (qm / pm) "
+               "and checks the answer for the ORIGINAL bounds",
                "the query bounds are converted to the endpoint type P once, at the call (for_overlaps takes P lb, P ub): the model knows only P-valued "
                "queries; the harness passes unsigned / size_t / short / int / float / mixed arguments holding the same value (qt / pt) and checks that "
                "the answer equals the P-typed query's (iv-qtype) and the brute force",
@@ -149,7 +152,7 @@ def run(c):
         # shifted: all negative / mixed sign), double (shifted and scaled by 0.25: negative, mixed-sign, fractional)
         def typed(ls):
             typ = c.rng.choice(["u64", "u64", "i64", "i64", "i32", "f64", "f64"])
-            if typ == "i32" and any(int(x) >= (1 << 30) for l in ls[1:] if l[0] in "iqpw" for x in l.split()[1:]):
+            if typ == "i32" and any(int(x) >= (1 << 30) for l in ls[1:] if l[0] in "iqpw" for x in l.split()[1:] if x.isdigit()):
                 typ = "i64"
             return gen.retype(ls, typ, c.rng.choice([100, 4, 4, 4, 0, 1 << 20]), c.rng)
         for i in range(8000 if thorough else 2000):
@@ -187,7 +190,7 @@ def run(c):
     for _, ls in cases:
         c.count("interval_ops", len(ls) - 1)
         for l in ls[1:]:
-            c.count("interval_op_" + {"i": "insert", "r": "remove", "q": "query2", "p": "query1", "qt": "query2_other_argument_type", "pt": "query1_other_argument_type", "w": "write_upper", "a": "aggregate_path", "A": "reaggregate"}.get(l.split()[0], "other"))
+            c.count("interval_op_" + {"i": "insert", "r": "remove", "q": "query2", "p": "query1", "qm": "query2_callback_mutates_bounds", "pm": "query1_callback_mutates_bounds", "qt": "query2_other_argument_type", "pt": "query1_other_argument_type", "w": "write_upper", "a": "aggregate_path", "A": "reaggregate"}.get(l.split()[0], "other"))
             if l.split()[0] == "q":
                 w = l.split()
                 if float(w[1]) > float(w[2]):
